@@ -356,6 +356,7 @@ class C17(Profile):
             # one more read-write SELECT by a fresh session: whatever is
             # still unclaimed shows up here
             last = 50
+            ctx.quiesce()
             for act in ({'kind': 'connect'},
                         {'kind': 'login', 'user': USER['name'],
                          'password': USER['password']},
